@@ -230,11 +230,16 @@ static void Array_Reserve_More(struct Array* a) {
 
 }
 
+static var Array_Follow(struct Array* a, var obj, char* old, size_t oldsize);
+
 static void Array_Concat(var self, var obj) {
   
   struct Array* a = self;
   
   size_t olen = len(obj);
+  
+  char* old = a->data;
+  size_t oldsize = Array_Step(a) * a->nslots;
   
   a->nitems += olen;
   Array_Reserve_More(a);
@@ -250,9 +255,11 @@ static void Array_Concat(var self, var obj) {
     return;
   }
   
+  /* (an item of the argument may be one of this Array's own elements, which
+  ** the reservation above has moved) */
   foreach (item in obj) {
     Array_Alloc(a, a->nitems);
-    assign(Array_Item(a, a->nitems), item);
+    assign(Array_Item(a, a->nitems), Array_Follow(a, item, old, oldsize));
     a->nitems++;
   }
   
